@@ -235,3 +235,97 @@ Section LoadOrder.
     - apply Permutation_map. exact Hp.
   Qed.
 End LoadOrder.
+
+(* ---- C08 / C15: `load` lists every history before the history that contains it (children before parents) ---- *)
+Section LoadParentOrder.
+  Variable C : Type.
+  Variable cdig : C -> text.
+
+  (* every history in l has its parent later in l, or its parent is the enclosing history `ext` *)
+  Definition parent_later (ext : path) (l : list lhist) : Prop :=
+    forall l1 h l2, l = l1 ++ h :: l2 -> lh_parent h = Some ext \/ exists h', In h' l2 /\ lh_parent h = Some (lh_root h').
+
+  Lemma app_split {A} : forall (l1 : list A) h l2 a b, l1 ++ h :: l2 = a ++ b ->
+    (exists l2', a = l1 ++ h :: l2' /\ l2 = l2' ++ b) \/ (exists l1', b = l1' ++ h :: l2 /\ l1 = a ++ l1').
+  Proof.
+    induction l1 as [|x l1 IH]; intros h l2 a b E.
+    - destruct a as [|y a]; cbn in E.
+      + right. exists []. auto.
+      + injection E as <- E. left. exists a. auto.
+    - destruct a as [|y a]; cbn in E.
+      + right. exists (x :: l1). auto.
+      + injection E as <- E. destruct (IH h l2 a b E) as [[l2' [-> ->]]|[l1' [-> ->]]].
+        * left. exists l2'. auto.
+        * right. exists l1'. auto.
+  Qed.
+  Lemma parent_later_app ext a b : parent_later ext a -> parent_later ext b -> parent_later ext (a ++ b).
+  Proof.
+    intros Ha Hb l1 h l2 E. symmetry in E.
+    destruct (app_split l1 h l2 a b E) as [[l2' [Ea ->]]|[l1' [Eb ->]]].
+    - destruct (Ha l1 h l2' Ea) as [H|[h' [Hin H]]]; [left; exact H|right]. exists h'. split; [apply in_or_app; left; exact Hin|exact H].
+    - apply (Hb l1' h l2 Eb).
+  Qed.
+  Lemma parent_later_nil ext : parent_later ext [].
+  Proof. intros l1 h l2 E. destruct l1; discriminate. Qed.
+  Lemma parent_later_concat ext ls : Forall (parent_later ext) ls -> parent_later ext (concat ls).
+  Proof. induction 1; cbn; [apply parent_later_nil|apply parent_later_app; assumption]. Qed.
+
+  Lemma combine_results_concat rs l : combine_results rs = inl l ->
+    exists ls, l = concat ls /\ Forall2 (fun r x => snd r = inl x) rs ls.
+  Proof.
+    revert l. induction rs as [|[n r] rs IH]; intros l H; cbn in H.
+    - injection H as <-. exists []. split; [reflexivity|constructor].
+    - destruct r as [lr|e]; [|discriminate]. destruct (combine_results rs) as [l'|e] eqn:E; [|discriminate].
+      injection H as <-. destruct (IH l' eq_refl) as [ls [-> Hf]]. exists (lr :: ls). split; [reflexivity|constructor; auto].
+  Qed.
+  Lemma Forall2_In_l {A B} (R : A -> B -> Prop) la lb : Forall2 R la lb -> forall b, In b lb -> exists a, In a la /\ R a b.
+  Proof. induction 1; intros b0 Hb; [destruct Hb|]. destruct Hb as [<-|Hb]; [eexists; split; [left; reflexivity|eauto]|]. destruct (IHForall2 b0 Hb) as [a [Ha Hr]]. exists a. split; [right; exact Ha|exact Hr]. Qed.
+
+  Theorem discover_parent_later : forall t p parent l, discover C cdig p parent t = inl l -> parent_later parent l.
+  Proof.
+    induction t as [c|h kids IH] using node_ind'; intros p parent l Hl.
+    - cbn in Hl. injection Hl as <-. apply parent_later_nil.
+    - rewrite discover_dir in Hl.
+      assert (Hk : forall par lk, combine_results (sort name_leb (kid_results C cdig p par kids)) = inl lk -> parent_later par lk).
+      { intros par lk Hc. destruct (combine_results_concat _ _ Hc) as [ls [-> Hf]]. apply parent_later_concat.
+        apply Forall_forall. intros x Hx. destruct (Forall2_In_l _ _ _ Hf x Hx) as [r [Hr Hrx]].
+        apply sort_In in Hr. unfold kid_results in Hr. apply in_map_iff in Hr. destruct Hr as [nk [<- Hin]]. cbn [snd] in Hrx.
+        rewrite Forall_forall in IH. eapply (IH nk Hin). exact Hrx. }
+      destruct h as [hh|].
+      + destruct (check_chain C cdig hh); [discriminate|].
+        destruct (combine_results (sort name_leb (kid_results C cdig p p kids))) as [below|e] eqn:Ec; [|discriminate].
+        injection Hl as <-. specialize (Hk p below Ec).
+        intros l1 h0 l2 E. symmetry in E. destruct (app_split l1 h0 l2 below [lhist_of C p (Some parent) (Some hh)] E) as [[l2' [Ea ->]]|[l1' [Eb ->]]].
+        * destruct (Hk l1 h0 l2' Ea) as [H|[h' [Hin H]]].
+          -- right. exists (lhist_of C p (Some parent) (Some hh)). split; [apply in_or_app; right; left; reflexivity|exact H].
+          -- right. exists h'. split; [apply in_or_app; left; exact Hin|exact H].
+        * destruct l1' as [|y l1']; cbn in Eb; [injection Eb as <- <-; left; reflexivity|].
+          injection Eb as _ Eb. destruct l1'; discriminate.
+      + eapply Hk. exact Hl.
+  Qed.
+
+  (* C08: in the list `load` returns, every nested history comes before the history that contains it; the root history
+     is last.  commit folds over this list, so children are committed before their parents. *)
+  Theorem load_children_first t hs : load C cdig t = inl hs ->
+    forall l1 h l2, hs = l1 ++ h :: l2 -> lh_parent h = None \/ exists h', In h' l2 /\ lh_parent h = Some (lh_root h').
+  Proof.
+    destruct t as [c|h kids]; intros Hl l1 h0 l2 E.
+    - cbn in Hl. injection Hl as <-. destruct l1 as [|x l1]; cbn in E; [injection E as <- <-; left; reflexivity|].
+      injection E as _ E. destruct l1; discriminate.
+    - rewrite load_dir in Hl. destruct (match h with Some hh => check_chain C cdig hh | None => None end); [discriminate|].
+      destruct (combine_results (sort name_leb (kid_results C cdig [] [] kids))) as [below|e] eqn:Ec; [|discriminate].
+      injection Hl as <-.
+      assert (Hk : parent_later [] below).
+      { destruct (combine_results_concat _ _ Ec) as [ls [-> Hf]]. apply parent_later_concat.
+        apply Forall_forall. intros x Hx. destruct (Forall2_In_l _ _ _ Hf x Hx) as [r [Hr Hrx]].
+        apply sort_In in Hr. unfold kid_results in Hr. apply in_map_iff in Hr. destruct Hr as [nk [<- Hin]]. cbn [snd] in Hrx.
+        eapply discover_parent_later. exact Hrx. }
+      symmetry in E. destruct (app_split l1 h0 l2 below [lhist_of C [] None h] E) as [[l2' [Ea ->]]|[l1' [Eb ->]]].
+      + destruct (Hk l1 h0 l2' Ea) as [H|[h' [Hin H]]].
+        * right. exists (lhist_of C [] None h). split; [apply in_or_app; right; left; reflexivity|].
+          rewrite H. destruct h; reflexivity.
+        * right. exists h'. split; [apply in_or_app; left; exact Hin|exact H].
+      + destruct l1' as [|y l1']; cbn in Eb; [injection Eb as <- <-; left; destruct h; reflexivity|].
+        injection Eb as _ Eb. destruct l1'; discriminate.
+  Qed.
+End LoadParentOrder.
